@@ -4,9 +4,15 @@
 
     pub trait IntoOwned: Sized {
         type Owned;
-        fn into_owned(self) -> Self::Owned;
-        fn clone_onto(self, other: &mut Self::Owned);
-        fn borrow_as(owned: &Self::Owned) -> Self;
+        /// `o` is the owned form of `self` (C14).  Impls whose bodies are outside the dialect define it as `true`, so that
+        /// nothing is assumed about them; Option / Result define it structurally and are proved relative to their parts.
+        spec fn own_rel(self, o: Self::Owned) -> bool;
+        fn into_owned(self) -> (r: Self::Owned)
+            ensures self.own_rel(r);
+        fn clone_onto(self, other: &mut Self::Owned)
+            ensures self.own_rel(*final(other));
+        fn borrow_as(owned: &Self::Owned) -> (r: Self)
+            ensures r.own_rel(*owned);
     }
 
     pub trait Region: Sized + Default + 'static {
